@@ -60,9 +60,7 @@ def meshQuery (a : Array Float) : List String := Id.run do
       let cr := V3.cross (V3.sub v2 v1) (V3.sub v3 v1)
       let n := V3.smul (1 / Float.sqrt (V3.normSq cr)) cr
       triRay n v1 v2 v3 o d
-    let rR := match tree.box.ray negInf o d with
-      | none => none
-      | some _ => search cR (tree.toBT (fun b => b.ray negInf o d))
+    let rR := meshRay negInf cR tree o d
     match rR with
     | some f => out := out ++ ["O mesh.ray 1" ++ fl [(cR f).getD 0]]
     | none => out := out ++ ["O mesh.ray 0"]
